@@ -30,6 +30,8 @@ def main():
             e = tab.get(s.key)
             if e is None or (e.get("snip") and e["snip"][:24] != s.snip[:24]):
                 continue
+            if e.get("guards_note"):
+                continue   # guards of this entry were edited by hand, with the reason in `guards_note`
             D = D or Discharger(F, fn)
             g = guard_facts(D, fn, s.bb)
             # keep the guards that are about a value the site's own expression (or its expect message) mentions: a comparison that merely
